@@ -54,8 +54,13 @@ def run(tier, replay=None):
         tlines = [l for l in open(os.path.join(ck.work, "cases_table.txt")).read().splitlines() if l.strip()]
         if ck.coq_ok:
             tmism = eval_chunked(ck, tlines, hdr, "N * levels * list (string * nat * ekind)", "table_mismatches", "table")
-        if tmism:
-            dmism = (dmism or []) + tmism
+        flines = [l for l in open(os.path.join(ck.work, "cases_finalize.txt")).read().splitlines() if l.strip()]
+        fmism = None
+        if ck.coq_ok:
+            fmism = eval_chunked(ck, flines, hdr, "N * etype * rawmap * list hmap * bodyspec", "finalize_mismatches", "finalize")
+        tlines = tlines + flines
+        if tmism or fmism:
+            dmism = (dmism or []) + (tmism or []) + (fmism or [])
     if not ck.coq_ok:
         if not ck.violations:
             ck.unproved("the ErrTransport development no longer checks: " + ck.coq_error,
